@@ -2,7 +2,8 @@
 
 R-C14-1  the external RNG reaches only TranscriptRngBuilder::finalize; every random draw in the prover takes a transcript-derived RNG
 R-C14-2  the prover hands its witness to the transcript wrapper, whose RNG is rekeyed with bytes that contain every opening's value and
-         every blinding factor (whole nested iteration)
+         every blinding factor (whole nested iteration); the stored bytes reach every rebuild as they were stored (no Option method
+         that can turn Some into None in between)
 R-C14-3  every RNG is finalize([rekey(]build_rng(T)[, "witness", bytes)], external) with T the live caller transcript; the un-keyed form is
          only reachable when no witness bytes exist
 R-C14-4  the RNG is rebuilt after the absorptions of every step and before that step's challenges (and stored in the wrapper)
